@@ -175,7 +175,9 @@ def cmd_opt(cmd):
             gasol_asm.block_has_been_optimized = real_decide
         r["decisions"] = decisions
         try:
-            eq, reason = gasol_asm.compare_asm_block_asm_format(blk, new_block, params)
+            # the comparison as optimize_asm_contract performs it (guarded where the tree provides the guarded form)
+            cmpf = getattr(gasol_asm, "safe_compare_asm_block_asm_format", gasol_asm.compare_asm_block_asm_format)
+            eq, reason = cmpf(blk, new_block, params)
             r["eq"], r["reason"] = bool(eq), str(reason)
         except BaseException as e:
             r["stage"], r["exc"] = "compare", exc_info(e)
